@@ -16,11 +16,11 @@ import (
 
 func init() {
 	register(&Prop{ID: "C09", Run: runC09, Enum: enumC09, Quick: 6000, Thorough: 400000, Level: "fault_enumeration",
-		Exhaustive: "adversary (11 kinds) x every stall offset k of the scripted frame x local state (9) x call (Close, CloseNow, CloseRead self-close) x role"})
+		Exhaustive: "adversary (11 kinds) x every stall offset k of the scripted frame x local state (10) x call (Close, CloseNow, CloseRead self-close) x role"})
 }
 
 var c09Adv = []string{"silent", "stall-data2", "stall-data4", "stall-data10", "stall-close", "flood", "huge", "never-reads", "half-close", "echo", "never-reads-sends-pongs"}
-var c09State = []string{"idle", "reader-blocked", "half-read-in-frame", "half-read-frame-end", "closeread", "writer-blocked", "ping-waiting", "closeread+ping-waiting", "after-writer-misuse"}
+var c09State = []string{"idle", "reader-blocked", "half-read-in-frame", "half-read-frame-end", "closeread", "writer-blocked", "ping-waiting", "closeread+ping-waiting", "after-writer-misuse", "closed-then-closeread"}
 var c09Call = []string{"Close", "CloseNow", "none"}
 var c09EchoDelays = []time.Duration{0, 4900 * time.Millisecond, 5100 * time.Millisecond}
 
@@ -257,6 +257,20 @@ func runC09(r *Run) {
 			stateReady = true
 			_ = c.Write(bg, websocket.MessageBinary, Payload{Kind: 2, Len: 60000, Seed: 9}.Bytes())
 			*d = r.S.Now()
+		})
+	case 9:
+		// the connection is already closed when CloseRead is called for the first
+		// time; closing it again afterwards must still be prompt
+		r.S.Go("misuser", func() {
+			c.CloseNow()
+			ctx := c.CloseRead(bg)
+			dctx := track("closeread-ctx")
+			r.S.Go("crwatch", func() {
+				<-ctx.Done()
+				*dctx = r.S.Now()
+				r.S.Kick()
+			})
+			stateReady = true
 		})
 	case 8:
 		// earlier, harmless misuse of the API: a streaming Writer closed twice, a
